@@ -30,7 +30,11 @@ Definition lshow (c : lcase) := lobs_of (parse_line (l_line c) (l_delim c)).
 (** part "prot": observation of parse_phoenix_prot(key, text): the items of the OrderedDict in order *)
 Inductive pobs := PItems (items : list (str * pval)) | PErr (e : err).
 
-Record pcase := { p_key : str; p_text : str; p_obs : pobs }.
+(** [p_judged]: the generator's flag "the text has both ASCCONV markers, the first END after the first
+    BEGIN" (or the protocol key is not a dialect).  The property speaks only of the assignments BETWEEN
+    the markers: for a text lacking a marker, or with END in front of BEGIN, the result is not compared
+    (the model keeps the code's find() = -1 slicing there); only a harness-level crash is reported. *)
+Record pcase := { p_key : str; p_text : str; p_judged : bool; p_obs : pobs }.
 
 (** The property speaks of the assignments, not of their order: dicts are compared as maps
     (both sides have unique keys: same size, and every entry of [a] is in [b] with an equal value). *)
@@ -57,13 +61,17 @@ Definition pobs_eqb (a b : pobs) : bool :=
   | _, _ => false
   end.
 
-Definition pcheck (c : pcase) : bool := pobs_eqb (pobs_of (parse_prot (p_key c) (p_text c))) (p_obs c).
+Definition not_crash_p (o : pobs) : bool := match o with PErr ECrash => false | _ => true end.
+Definition pcheck (c : pcase) : bool :=
+  if p_judged c then pobs_eqb (pobs_of (parse_prot (p_key c) (p_text c))) (p_obs c)
+  else not_crash_p (p_obs c).
 Definition pshow (c : pcase) := pobs_of (parse_prot (p_key c) (p_text c)).
 
 (** part "csa": observation of csa_series_trans_func on the simplified CSA dict *)
 Inductive cobs := CDict (items : csa_dict) | CErr (e : err).
 
-Record ccase := { c_in : csa_dict; c_obs : cobs }.
+(** [c_judged]: as [p_judged], for the protocol element that is parsed (true when there is none) *)
+Record ccase := { c_in : csa_dict; c_judged : bool; c_obs : cobs }.
 
 Fixpoint pvals_eqb (a b : list pval) : bool :=
   match a, b with
@@ -95,5 +103,8 @@ Definition cobs_eqb (a b : cobs) : bool :=
   | _, _ => false
   end.
 
-Definition ccheck (c : ccase) : bool := cobs_eqb (cobs_of (csa_series_merge (c_in c))) (c_obs c).
+Definition not_crash_c (o : cobs) : bool := match o with CErr ECrash => false | _ => true end.
+Definition ccheck (c : ccase) : bool :=
+  if c_judged c then cobs_eqb (cobs_of (csa_series_merge (c_in c))) (c_obs c)
+  else not_crash_c (c_obs c).
 Definition cshow (c : ccase) := cobs_of (csa_series_merge (c_in c)).
